@@ -9,6 +9,7 @@ import (
 	"context"
 	"fmt"
 	"os"
+	"runtime"
 	"runtime/debug"
 	"sort"
 	"sync"
@@ -257,6 +258,7 @@ type Obs struct {
 	FinalAllocated              map[peer.ID]uint64
 	FinalTotal                  uint64
 	FinalPending                int
+	RacedFirstSends             bool // several first sends to a peer were released together
 	ExitWhileBuilding           bool // a queue finished winding down while a message for its peer was waiting for memory or being built
 	EventsAtFinal               int // allocator events recorded up to the final observation (the teardown that follows releases every peer)
 	IdleViolations              []string          // allocation non-zero while the queue was idle
@@ -437,8 +439,13 @@ func Run(t *testing.T, c Case) *Obs {
 		alloc := &recAlloc{inner: allocator.NewAllocator(c.Total, c.PerPeer), lastFailed: map[peer.ID]bool{}}
 		obs.Alloc = alloc
 		qn := 0
+		var factoryGate chan struct{} // when set, creating a queue for gatedPeer blocks (the peer table is locked meanwhile)
+		var gatedPeer peer.ID
 		prog := &inProgress{n: map[peer.ID]int{}}
 		pm := peermanager.NewMessageManager(ctx, func(ctx context.Context, p peer.ID, onShutdown func(peer.ID)) peermanager.PeerQueue {
+			if g := factoryGate; g != nil && p == gatedPeer {
+				<-g
+			}
 			rec := &queueRec{Peer: p, N: qn}
 			qn++
 			if os.Getenv("VERIF_DEBUG") != "" {
@@ -526,34 +533,67 @@ func Run(t *testing.T, c Case) *Obs {
 				}
 			}
 		}
+		issue := func(opIdx int, op Op) {
+			p := Peers[op.Peer%NPeers]
+				key := [2]int{op.Peer % NPeers, op.Req % NReqs}
+			if chans[key] == nil {
+				chans[key] = make(chan work, 64)
+				streams[key] = ra.NewStream(ctx, p, reqID(key[0], key[1]), nullSub{})
+				go worker(key, chans[key])
+			}
+			for _, x := range op.Tx {
+				if x.K == "ext" && x.Size > 0 {
+					obs.ExtPresent = true
+				}
+			}
+			// does any queue for p have unfinished shutdown pending? (classification)
+			for _, q := range obs.Queues {
+				if q.Peer == p && q.ShutdownCall && !q.Callback {
+					obs.ReconnectWhilePending = true
+				}
+			}
+			marker++
+			obs.IssuedAt[marker] = opIdx
+			obs.QueuedOrder[p] = append(obs.QueuedOrder[p], marker)
+			mu.Lock()
+			pendingTx++
+			mu.Unlock()
+			chans[key] <- work{tx: op.Tx, marker: marker}
+		}
 		for opIdx, op := range c.Ops {
 			p := Peers[op.Peer%NPeers]
 			switch op.K {
 			case "tx":
-				key := [2]int{op.Peer % NPeers, op.Req % NReqs}
-				if chans[key] == nil {
-					chans[key] = make(chan work, 64)
-					streams[key] = ra.NewStream(ctx, p, reqID(key[0], key[1]), nullSub{})
-					go worker(key, chans[key])
-				}
-				for _, x := range op.Tx {
-					if x.K == "ext" && x.Size > 0 {
-						obs.ExtPresent = true
+				issue(opIdx, op)
+			case "racefirst":
+				// first sends to a peer with no queue yet, arriving together while the peer table is locked by
+				// the (slow) creation of another peer's queue
+				q := Peers[(op.Peer+1)%NPeers]
+				fresh := true
+				for _, qr := range obs.Queues {
+					if qr.Peer == p || qr.Peer == q {
+						fresh = false
 					}
 				}
-				// does any queue for p have unfinished shutdown pending? (classification)
-				for _, q := range obs.Queues {
-					if q.Peer == p && q.ShutdownCall && !q.Callback {
-						obs.ReconnectWhilePending = true
+				if !fresh || net.IsConnected(Self, q) {
+					break
+				}
+				yield := func() {
+					for i := 0; i < 300; i++ {
+						runtime.Gosched()
 					}
 				}
-				marker++
-				obs.IssuedAt[marker] = opIdx
-				obs.QueuedOrder[p] = append(obs.QueuedOrder[p], marker)
-				mu.Lock()
-				pendingTx++
-				mu.Unlock()
-				chans[key] <- work{tx: op.Tx, marker: marker}
+				g := make(chan struct{})
+				factoryGate, gatedPeer = g, q
+				go net.Connect(Self, q)
+				yield()
+				for r := 0; r < NReqs && r < 1+len(op.Tx); r++ {
+					issue(opIdx, Op{K: "tx", Peer: op.Peer, Req: r, Tx: []TxOp{{K: "block", Size: 100}}})
+				}
+				yield()
+				factoryGate = nil
+				close(g)
+				obs.RacedFirstSends = true
 			case "connect":
 				for _, q := range obs.Queues {
 					if q.Peer == p && q.ShutdownCall && !q.Callback {
@@ -845,5 +885,22 @@ func GenBacklog(t *rapid.T) Case {
 	if rapid.IntRange(0, 3).Draw(t, "fail") == 0 {
 		c.FailSend = []int{rapid.IntRange(0, 3).Draw(t, "failidx")}
 	}
+	return c
+}
+
+// GenFirstSendRace draws histories that begin with several first sends to a peer arriving together.
+func GenFirstSendRace(t *rapid.T) Case {
+	c := Case{Retries: 1, PerPeer: 1000000, Total: 1000000}
+	p := rapid.IntRange(0, NPeers-1).Draw(t, "peer")
+	n := rapid.IntRange(1, 2).Draw(t, "extra")
+	c.Ops = append(c.Ops, Op{K: "racefirst", Peer: p, Tx: make([]TxOp, n)})
+	for i := rapid.IntRange(0, 3).Draw(t, "more"); i > 0; i-- {
+		c.Ops = append(c.Ops, Op{K: "tx", Peer: p, Req: rapid.IntRange(0, NReqs-1).Draw(t, "req"), Tx: []TxOp{{K: "block", Size: 400}}})
+	}
+	if rapid.Bool().Draw(t, "conn") {
+		c.Ops = append(c.Ops, Op{K: "connect", Peer: p})
+		c.Ops = append(c.Ops, Op{K: "disconnect", Peer: p})
+	}
+	c.Ops = append(c.Ops, Op{K: "wait", Peer: p})
 	return c
 }
